@@ -658,6 +658,8 @@ class _Frame:
                 if isinstance(b, Fraction) and b.denominator != 1:
                     if b == Q(1, 2):
                         return MQ.sqrt(a) if isinstance(a, (int, Fraction, MQ)) else a**b
+                    if b == Q(-1, 2) and isinstance(a, (int, Fraction)):
+                        return 1 / MQ.sqrt(a)
                     if isinstance(a, Poly) or getattr(type(a), "_xeval_open", False):
                         return a**b
                     raise self.bad(f"non-integer power {b}", n)
@@ -1373,6 +1375,7 @@ _NP_FUNCS = {
     "ndim": lambda a: XArray.from_nested(a).ndim if not _is_num(a) else 0,
     "size": lambda a: XArray.from_nested(a).size if not _is_num(a) else 1,
     "ravel": lambda a: XArray.from_nested(a).ravel(),
+    "isscalar": lambda x: _is_num(x) or isinstance(x, (bool, str)),
     "where": lambda *a: _np_where(*a),
     "setdiff1d": lambda *a, **k: _np_setdiff1d(*a, **k),
 }
